@@ -350,6 +350,112 @@ PROPS["C19"] = dict(
 )
 SETUP_EXTRA += [("asan", "rt")]
 
+
+# ---- program corpora (C05 part c, C12, C16): generated by tools/gen_corpus.py, compiled against /repo ----------
+
+def prepare_corpus(chk, pid, tier, seed, outdir):
+    """Generate the corpus (fixed seed for the quick tier, VERIF_SEED for thorough), then build it in two
+    steps: generated items alone, then items + drivers. A failure of step 1 means that code produced by
+    zlink's macros for a declaration of the corpus does not compile (violation); a failure of step 2 only
+    means that the harness' drivers do not fit this tree (inconclusive)."""
+    import hashlib, json, os, re, subprocess, time
+    feat = pid.lower()
+    size = "quick" if tier == "quick" else "thorough"
+    cseed = 1 if tier == "quick" else seed
+    gen_dir = os.path.join(chk.HARNESS, "corpus", "src", "gen")
+    script = os.path.join(chk.VERIF, "tools", "gen_corpus.py")
+    stamp = hashlib.sha1(open(script, "rb").read()).hexdigest()[:12] + f"-{cseed}-{size}"
+    stamp_file = os.path.join(gen_dir, ".stamp")
+    if not (os.path.exists(stamp_file) and open(stamp_file).read() == stamp):
+        subprocess.run(["python3", script, str(cseed), size, gen_dir], check=True, stdout=subprocess.DEVNULL)
+        open(stamp_file, "w").write(stamp)
+    results, inconclusive = [], []
+    tsuffix = "-" + feat
+    ok, out = chk.build("native", "corpus", feat + ",drivers", tsuffix)   # items + drivers
+    if ok:
+        return dict(results=results, inconclusive=inconclusive)
+    ok1, out1 = chk.build("native", "corpus", feat, tsuffix)             # items only
+    if not ok1:
+        mine = {"c12": r"gen/p\d+\.rs", "c05": r"gen/e\d+\.rs", "c16": r"gen/t\d+\.rs"}[feat]
+        files = sorted(set(re.findall(mine, out1)))
+        if files:
+            rep = dict(property=pid, monitor=feat, evaluations=1, distinct=1, distinct_hashes=["0" * 16], samples=[],
+                       violations=[dict(signature=f"{pid}/code-generated-for-a-corpus-declaration-does-not-compile",
+                                        detail="items-only build of the corpus failed in " + ", ".join(files) + "\n" + out1[-3000:],
+                                        replay=dict(monitor=feat, note="cargo build -p corpus --no-default-features --features " + feat))],
+                       violation_counts={f"{pid}/code-generated-for-a-corpus-declaration-does-not-compile": 1},
+                       counters={}, inconclusive=[], exhaustive=False, notes=[])
+            results.append(dict(layer="native", monitor=feat, shard=0, rc=0, wall=0.0, output_tail="", report=rep))
+        else:
+            inconclusive.append("corpus does not build and the errors are not in generated items: " + out1[-600:])
+    else:
+        inconclusive.append("the generated items compile but the harness' drivers do not fit this tree: " + out[-800:])
+    return dict(results=results, inconclusive=inconclusive)
+
+
+CORPUS_ASSUME = ["the quick corpus is generated from a fixed seed (values are random per run); the thorough corpus is regenerated from VERIF_SEED",
+                 "a corpus item that does not compile is attributed to zlink only when the items-only build fails inside a generated item"]
+
+PROPS["C12"] = dict(
+    level="exploration", pre="prepare_corpus",
+    rule=("a generated corpus of proxy traits (quick 14 traits / ~55 methods, thorough 60): method names of 1..4 words with digits, "
+          "renamed or not; 0..4 parameters over {i64, u32, f64, bool, &str, String, Option<&str|i64|String|bool|&Pt>, &[i64], "
+          "Vec<String>, &Pt, Pt, generic T: Serialize}; parameter renames; elided and explicit lifetimes; more / oneway; unit, owned "
+          "and borrowed outputs; every method is invoked in every form the macro generates (plain, chain_<m>, chain extension) with "
+          "random argument values, 40 (thorough 2000) rounds; replies scripted as success / declared error / undeclared error / "
+          "service error / wrong shape / wrong error parameters, streams of 0..3 continuing replies + final; distinct = (method, "
+          "form, round)"),
+    oracle=("the captured call (as JSON, duplicate-key checked, exactly one write) == the frame computed from the declaration: method "
+            "<interface>.<PascalCase(name) | rename>, each argument under its declared wire name, None omitted, no parameters member "
+            "for a method without arguments, more / oneway exactly when annotated; the three forms agree; a oneway method makes no "
+            "read; replies come back as Ok(Ok) / Ok(Err) / Err exactly as receive_reply classifies the same frame with the same "
+            "types; streaming methods yield one item per reply up to the final one"),
+    assumptions=CORPUS_ASSUME + ["a method without outputs ignores the parameters of a successful reply (reference receives them as IgnoredAny)"],
+    floor_quick=2_000, floor_thorough=100_000,
+    steps=[
+        dict(layer="native", package="corpus", monitor="c12", features="c12,drivers", tsuffix="-c12", shards_quick=4, shards_thorough=16),
+    ],
+)
+
+PROPS["C16"] = dict(
+    level="exploration", pre="prepare_corpus",
+    rule=("a generated corpus of types using the introspection derives (quick 40 items, thorough 160): Type / CustomType structs "
+          "with 0..6 fields and unit-variant enums, ReplyError enums with unit / struct / single-tuple variants; field types over "
+          "every Type impl available (all integer widths, floats, bool, char, &str, String, (), serde_json::Value, paths, OS strings, "
+          "net and time types, Option, Vec, slices, hash/btree sets and string-keyed maps, Box/Rc/Arc/Cell/RefCell/Cow, nested custom "
+          "types), lifetimes, doc comments on types, fields and variants; each item is one case (the descriptions are constants)"),
+    oracle=("TYPE / CUSTOM_TYPE / VARIANTS walked through the accessors == the expectation tree emitted next to the declaration "
+            "(names, order, Varlink types, doc comments after trimming); an interface assembled from the derived piece renders to "
+            "text that parses back to an equal description (accessor comparison and the library's PartialEq)"),
+    assumptions=CORPUS_ASSUME + ["Option<Option<_>>, raw identifiers and serde renames are outside the corpus (DESIGN C16)"],
+    floor_quick=40, floor_thorough=160,
+    steps=[
+        dict(layer="native", package="corpus", monitor="c16", features="c16,drivers", tsuffix="-c16", shards_quick=1, shards_thorough=1),
+    ],
+)
+
+PROPS["C05"] = dict(
+    level="exploration", pre="prepare_corpus",
+    rule=("(a) call encode: 7 method values (adjacently tagged enums with unit / struct / option variants, borrowed fields, a strict "
+          "struct, both org.varlink.service methods) x all 8 flag sets, through serde_json and through send_call; (b) call decode: "
+          "8 method shapes x all 27 flag states (absent / false / true) x an unknown extra member or not x member permutations (all "
+          "when <= 120, else 40 sampled; thorough: all), through serde_json and receive_call; random call and Reply<T> round trips; "
+          "(c) a generated corpus of ReplyError enums (quick 16, thorough 60: unit and struct variants, renamed fields, lifetimes, "
+          "options) with random field values; (d) {absent, null, {}} parameters x {GetInfo, field-less service errors, field-less "
+          "derived variants, proxy methods without outputs}, directly and through receive_call / receive_reply; distinct = the document"),
+    oracle=("encode == the method type's own members + exactly the set flags, no duplicate keys; decode: flags read back exactly and "
+            "the method equals decoding the same object without the flags (Ok/Err agreement with the method type); decode(encode(c)) "
+            "== c; derived errors encode as {error: <iface>.<Variant>[, parameters: {wire name: value}]}, on the wire too, decode from "
+            "every member order and round-trip; every spelling of 'no parameters' is recognised"),
+    assumptions=CORPUS_ASSUME,
+    floor_quick=20_000, floor_thorough=200_000,
+    steps=[
+        dict(layer="native", monitor="c05", shards_quick=4, shards_thorough=8),
+        dict(layer="native", package="corpus", monitor="c05", tag="corpus", features="c05,drivers", tsuffix="-c05", shards_quick=2, shards_thorough=8),
+        dict(layer="miri", monitor="c05", shards_quick=4, shards_thorough=8, budget_quick=40, budget_thorough=400),
+    ],
+)
+
 LEVEL_TEXT = {}
 
 def _na():
